@@ -12,7 +12,7 @@ RULE = ('(algorithm, n, matrix type {real symmetric, complex Hermitian, diagonal
         'non-normal}, spectrum {separated, degenerate}, k = number of distinct eigenvalues reachable from the start vector '
         '= true Krylov dimension, real/complex start vector) x every 1<=m<=n inside the case; relations are checked on the '
         'leading min(m\', k) vectors only; distinct = distinct descriptor; non-trivial for n>=2')
-BOUNDS = {'quick': 'n<=12, every m<=n, every k, 1e-3<=||A||<=8', 'thorough': 'n<=12, every m<=n, every k, 1e-3<=||A||<=8, 30 repetitions'}
+BOUNDS = {'quick': 'n<=12, every m<=n, every k, 1e-3<=||A||<=8; stiff spectra (cluster + outliers 1e2..1e3) n<=40, m in 8,16,24; non-allocating maps n<=8', 'thorough': 'same, 30 repetitions'}
 EXHAUSTIVE = {'quick': False, 'thorough': False}
 
 
@@ -32,6 +32,12 @@ def cases(tier, seed):
                             for r in range(reps):
                                 yield dict(kind=algo, mattype=mt, n=n, spectrum=spec, k=k, vreal=vreal,
                                            seed=int(rng.integers(1 << 31)))
+        if algo == 'lanczos':
+            for n in (24, 32, 40):
+                for vreal in (False, True):
+                    for r in range(reps):
+                        yield dict(kind=algo, mattype='special', mapform='stiff', n=n, spectrum='separated', k=0, vreal=vreal, ms=[8, 16, 24],
+                                   seed=int(rng.integers(1 << 31)))
         # maps that return (a view of) their argument or a buffer of their own instead of a fresh array
         for form in h.MAPFORMS:
             for n in range(1, 9):
@@ -59,7 +65,7 @@ def run_case(c):
     sc = max(1.0, nA)
     Afunc = P.get('Afunc') or (lambda x: A @ x)
     v0 = v.copy()
-    for m in range(1, n + 1):
+    for m in (c.get('ms') or range(1, n + 1)):
         tag = f'n={n} m={m} kdim={kdim}'
         sub = h.ref_arnoldi_subdiag(A, v, min(m, kdim))        # reference off-diagonals before exhaustion
         try:
